@@ -395,7 +395,10 @@ def run_check(prop: str, tier: str, engine_name, profile: Optional[Dict[str, Any
 
     # distinct new violations -> minimise a few and write replay files
     seen_keys = set()
-    replay_dir = os.path.join(VERIF, "replays")
+    # VERIF_OUT_DIR: development aid (tools/try_seed.sh) so that trials against a patched
+    # scratch worktree never overwrite the evidence / replays of /repo itself
+    out_root = os.environ.get("VERIF_OUT_DIR") or VERIF
+    replay_dir = os.path.join(out_root, "replays")
     os.makedirs(replay_dir, exist_ok=True)
     reported = 0
     for l, v in new_violations:
@@ -470,8 +473,8 @@ def run_check(prop: str, tier: str, engine_name, profile: Optional[Dict[str, Any
         "wall_s": round(wall_s, 2),
         "violations": len(seen_keys),
     }
-    os.makedirs(os.path.join(VERIF, "evidence"), exist_ok=True)
-    with open(os.path.join(VERIF, "evidence", f"{prop}.json"), "w") as f:
+    os.makedirs(os.path.join(out_root, "evidence"), exist_ok=True)
+    with open(os.path.join(out_root, "evidence", f"{prop}.json"), "w") as f:
         json.dump(evidence, f, indent=1, default=str)
 
     if other_props.get("HARNESS") and not harness_problem:
